@@ -444,4 +444,31 @@ theorem C15_flood_detects_ping_burst :
 example : FloodCfg.default.maxPing + 1 < U32 ∧ FloodCfg.default.maxGlitch + Consts.h2MaxSettingsEntries < U32 := by
   decide
 
+/-- Stream states: for every state of the target stream and every frame kind
+    the answer `handle_header_state` gives is one RFC 9113 §5.1 allows. -/
+theorem C15_stream_table_conforms (st : StreamSt) (fk : FrameKind) :
+    headerVerdict (viewOf st) fk ∈ rfcAllowed st fk := by
+  cases st <;> cases fk <;> decide
+
+/-- A stream sozu has refused (its id is above every accepted stream) is
+    *closed*, not idle: frames already in flight for it never cost the
+    connection. This hinges on the closed/idle test using the watermark that
+    also advances on refusals. -/
+theorem C15_refused_stream_frames_keep_connection (fk : FrameKind) (h : fk ≠ .continuation) :
+    (headerVerdict (viewOf .refused) fk).isConnError = false := by
+  cases fk <;> first | exact absurd rfl h | decide
+
+/-- the same table with the closed/idle test done on `last_stream_id` (which a
+    refusal does not advance) would answer GOAWAY(PROTOCOL_ERROR) there -/
+example : headerVerdict { viewOf .refused with leHighest := false } .windowUpdate = .connError PROTOCOL_ERROR := by
+  decide
+
+/-- idle streams: anything but HEADERS / PRIORITY is a connection error PROTOCOL_ERROR -/
+theorem C15_idle_stream_frames_are_connection_errors (fk : FrameKind) (h1 : fk ≠ .headers) (h2 : fk ≠ .priority) :
+    headerVerdict (viewOf .idleAbove) fk = .connError PROTOCOL_ERROR := by
+  cases fk <;> first | exact absurd rfl h1 | exact absurd rfl h2 | decide
+
+example : headerVerdict (viewOf .closedPeerRst) .data = .streamError STREAM_CLOSED := by decide
+example : headerVerdict (viewOf .halfClosedRemote) .windowUpdate = .handled := by decide
+
 end Sozu.H2Wire
